@@ -122,6 +122,11 @@ def judge(case, m):
     complete = df[used].notna().all(axis=1).to_numpy() if used else np.ones(n, bool)
     policy = case["policy"]
     orig = attach.ORIG["design_matrices"]
+    if not complete.any():
+        # no complete row is left: "the data with those rows removed" is an empty frame, which
+        # design_matrices refuses by itself; nothing to compare
+        m.note("no-complete-row-not-judged")
+        return
 
     def shadow(frame, na="drop"):
         with core.shadow():
